@@ -21,6 +21,8 @@ import (
 
 	"go.etcd.io/etcd/api/v3/etcdserverpb"
 	"go.etcd.io/etcd/api/v3/mvccpb"
+	"github.com/soheilhy/cmux"
+	"google.golang.org/grpc"
 	"google.golang.org/grpc/codes"
 	"google.golang.org/grpc/status"
 	metav1 "k8s.io/apimachinery/pkg/apis/meta/v1"
@@ -1426,6 +1428,17 @@ func main() {
 		}
 	}
 
+	// ---- part 5: delayed forwarded transaction through the real peer service
+	if cs, fail := runForward(args.Scratch); cs.Coq != "" || fail != "" {
+		if cs.Coq == "" {
+			cs = lib.Case{Kind: "forward-delayed", Coq: lib.App("ForwardCase", "0", "0", "[]", "0", "0", "false"), JSON: map[string]interface{}{"scenario": "delayed forwarded txn"}}
+		}
+		w.Add(cs)
+		if fail != "" {
+			w.Fail(lib.ImplFailure{CaseID: w.Len() - 1, What: "forward scenario: " + fail, Case: cs.JSON})
+		}
+	}
+
 	// ---- part 4: take-over
 	if cs, fail := runTakeover(args.Scratch); cs.Coq != "" {
 		w.Add(cs)
@@ -1449,6 +1462,157 @@ func main() {
 		fmt.Fprintln(os.Stderr, err)
 		os.Exit(2)
 	}
+}
+
+// ---------- part 5: a forwarded transaction whose answer is delayed ----------
+
+// runForward: a leader (etcd.RPCServer over gRPC and a /status endpoint on ONE loopback port, as a node serves them) and a
+// follower built with the real service.NewPeerService (real syncer, real etcd proxy, EnableEtcdProxy) over a recording
+// backend.  The follower forwards a create; the leader's answer (revision w) is held back by an interceptor; the leader
+// commits two more keys (up to r); the follower serves a List; the answer is released; the follower serves a second List.
+func runForward(scratch string) (lib.Case, string) {
+	m := &lib.NopMetrics{}
+	store, _, _ := lib.NewEngine(lib.EngMem, scratch)
+	ctx := context.Background()
+	fail := ""
+	backendL := backend.NewBackend(store, backend.Config{Prefix: "/registry", Identity: "fwd-leader", EnableEtcdCompatibility: true}, m)
+	backendL.SetCurrentRevision(7000)
+	lis, err := net.Listen("tcp", "127.0.0.1:0")
+	if err != nil {
+		return lib.Case{}, "listen"
+	}
+	addr := lis.Addr().String()
+	stubL := &leader.Stub{ElectionInfo: leader.ElectionInfo{IsLeader: true, LeaderAddress: addr}}
+	srvL := etcd.New(backendL, m, &peers{Stub: stubL, RevisionSyncer: revision.NewRevisionSyncer(backendL, m, stubL, nil), recProxy: &recProxy{disabled: etcdproxy.NewDisabledEtcdProxy()}})
+	var holdArmed int32
+	held, release := make(chan struct{}, 1), make(chan struct{})
+	g := grpc.NewServer(grpc.UnaryInterceptor(func(c context.Context, req interface{}, info *grpc.UnaryServerInfo, h grpc.UnaryHandler) (interface{}, error) {
+		resp, err := h(c, req)
+		if strings.HasSuffix(info.FullMethod, "/Txn") && atomic.CompareAndSwapInt32(&holdArmed, 1, 0) {
+			held <- struct{}{}
+			<-release // the answer is on its way
+		}
+		return resp, err
+	}))
+	srvL.Register(g)
+	mux := cmux.New(lis)
+	grpcL := mux.MatchWithWriters(cmux.HTTP2MatchHeaderFieldSendSettings("content-type", "application/grpc"))
+	httpL := mux.Match(cmux.HTTP1Fast())
+	hm := http.NewServeMux()
+	hm.HandleFunc("/status", func(w http.ResponseWriter, _ *http.Request) { // as server.revisionHandler on a leader
+		b, _ := json.Marshal(&revision.LeaderRevision{Revision: backendL.GetCurrentRevision()})
+		w.WriteHeader(200)
+		w.Write(b)
+	})
+	go g.Serve(grpcL)
+	go http.Serve(httpL, hm)
+	go mux.Serve()
+	defer g.Stop()
+
+	innerF := backend.NewBackend(store, backend.Config{Prefix: "/registry", Identity: "fwd-follower", EnableEtcdCompatibility: true}, m)
+	recF := &recBackend{inner: innerF}
+	stubF := &leader.Stub{ElectionInfo: leader.ElectionInfo{IsLeader: false, LeaderAddress: addr}}
+	srvF := etcd.New(recF, m, service.NewPeerService(stubF, m, recF, service.Config{EnableEtcdProxy: true}))
+
+	key := func(i int) []byte { return []byte(fmt.Sprintf("/registry/fwd/k%d", i)) }
+	create := func(srv *etcd.RPCServer, k []byte) (*etcdserverpb.TxnResponse, error) {
+		c, cancel := context.WithTimeout(ctx, 5*time.Second)
+		defer cancel()
+		return srv.Txn(c, &etcdserverpb.TxnRequest{Compare: []*etcdserverpb.Compare{cmpMod(k, 0)}, Success: []*etcdserverpb.RequestOp{rqPut(k, []byte("v"))}})
+	}
+	list := func() (*etcdserverpb.RangeResponse, error) {
+		c, cancel := context.WithTimeout(ctx, 5*time.Second)
+		defer cancel()
+		return srvF.Range(c, &etcdserverpb.RangeRequest{Key: []byte("/registry/fwd/"), RangeEnd: []byte("/registry/fwd0")})
+	}
+	committed := func(rev int64) {
+		if !lib.WaitUntil(3*time.Second, func() bool { return backendL.GetCurrentRevision() >= uint64(rev) }) {
+			fail = "the leader did not commit"
+		}
+	}
+	// an ordinary forwarded create first
+	if r1, e1 := create(srvF, key(1)); e1 != nil || r1 == nil || !r1.Succeeded {
+		return lib.Case{}, fmt.Sprintf("forwarded create failed: %v", e1)
+	} else {
+		committed(r1.Header.Revision)
+	}
+	// the delayed one
+	atomic.StoreInt32(&holdArmed, 1)
+	type res struct {
+		r *etcdserverpb.TxnResponse
+		e error
+	}
+	fdone := make(chan res, 1)
+	go func() { r, e := create(srvF, key(2)); fdone <- res{r, e} }()
+	select {
+	case <-held:
+	case <-time.After(3 * time.Second):
+		return lib.Case{}, "the forwarded transaction did not reach the leader"
+	}
+	w := backendL // the leader has applied it: its revision is the answer's header
+	_ = w
+	var r uint64
+	for i := 3; i <= 4; i++ {
+		rr, e := create(srvL, key(i))
+		if e != nil || rr == nil || !rr.Succeeded {
+			fail = "leader create failed"
+		} else {
+			committed(rr.Header.Revision)
+			r = uint64(rr.Header.Revision)
+		}
+	}
+	complete := func(resp *etcdserverpb.RangeResponse, n int) bool {
+		have := map[string]bool{}
+		for _, kv := range resp.Kvs {
+			have[string(kv.Key)] = true
+		}
+		for i := 1; i <= n; i++ {
+			if !have[string(key(i))] {
+				return false
+			}
+		}
+		return true
+	}
+	l1, e1 := list()
+	close(release) // the answer arrives
+	var wrev uint64
+	select {
+	case x := <-fdone:
+		if x.e == nil && x.r != nil && x.r.Header != nil {
+			wrev = uint64(x.r.Header.Revision)
+		} else {
+			fail = fmt.Sprintf("the delayed forwarded transaction failed: %v", x.e)
+		}
+	case <-time.After(3 * time.Second):
+		fail = "the delayed forwarded transaction did not return"
+	}
+	l2, e2 := list()
+	var setc, sets []string
+	for _, c := range recF.take() {
+		if strings.HasPrefix(c, "set:") {
+			var before, v uint64
+			fmt.Sscanf(c, "set:%d:%d", &before, &v)
+			setc = append(setc, lib.N(v))
+			sets = append(sets, c)
+		}
+	}
+	var h1, h2 uint64
+	c2 := false
+	var keys2 []string
+	if e1 == nil && l1 != nil && l1.Header != nil {
+		h1 = uint64(l1.Header.Revision)
+	}
+	if e2 == nil && l2 != nil && l2.Header != nil {
+		h2 = uint64(l2.Header.Revision)
+		c2 = complete(l2, 4)
+		for _, kv := range l2.Kvs {
+			keys2 = append(keys2, string(kv.Key))
+		}
+	}
+	j := map[string]interface{}{"scenario": "delayed forwarded txn", "w": wrev, "r": r, "follower_sets": sets, "list1_header": h1, "list1_err": fmt.Sprint(e1),
+		"list2_header": h2, "list2_keys": keys2, "list2_err": fmt.Sprint(e2)}
+	return lib.Case{Kind: "forward-delayed", Coq: lib.App("ForwardCase", lib.N(wrev), lib.N(r), lib.List(setc), lib.N(h1), lib.N(h2), lib.Bool(c2)),
+		JSON: j, Outcomes: []string{"forward"}}, fail
 }
 
 // ---------- part 4: a read through a node that is taking over ----------
